@@ -443,7 +443,7 @@ class Explorer:
                 detail += "%s: %s; " % (which, e)
         return "unknown", detail, "", time.time() - t0
 
-    def run_harness(self, hname, hfunc, params, summaries, loop_contracts):
+    def run_harness(self, hname, hfunc, params, summaries, loop_contracts, case=MISSING):
         I = self.I
         res = HarnessResult(hname)
         t0 = time.time()
@@ -466,7 +466,9 @@ class Explorer:
             I.used_loop_contracts = set()
             completed = False
             try:
-                args = self.make_args(ctx, hfunc, params)
+                args = self.make_args(ctx, hfunc, params if case is MISSING else params[1:])
+                if case is not MISSING:
+                    args = [case] + args
                 try:
                     I.call_function(hfunc, args, {})
                     completed = True
@@ -750,7 +752,7 @@ class Registry:
             name = kw.get("name", f.name)
             self.harnesses[name] = dict(name=name, func=f, prop=kw.get("prop"), target=kw.get("target"),
                                         uses=list(kw.get("uses", [])), loops=list(kw.get("loops", [])),
-                                        proves=kw.get("proves"), tier=kw.get("tier", "quick"),
+                                        proves=kw.get("proves"), tier=kw.get("tier", "quick"), cases=kw.get("cases"),
                                         timeout=kw.get("timeout"), note=kw.get("note", ""))
         elif kind == "summary":
             name = kw.get("name", f.name)
